@@ -322,6 +322,14 @@ func VH_C16_ParallelPreload() {
 		}
 	}
 	vhAssert(len(base.log) == 0, "preload writes nothing")
+	// the call has returned: the caller reads its cache while any goroutine that
+	// outlived the call gets to run (an unsynchronised access is a race)
+	for i := 0; i < 3; i++ {
+		runtime.Gosched()
+	}
+	for _, id := range ids {
+		_ = st.cache[id]
+	}
 	vhReach("preload-done")
 }
 
